@@ -375,5 +375,28 @@ def warm_up(b, names, rnd, steps=30, swaps=True):
         elif op == 'swap' and swaps and n >= 2:
             i = rnd.randrange(n - 1)
             b.swap(i, i + 1)
+    if rnd.random() < .5:
+        fork_and_discard(b, names, rnd)
     for u in held:
         b.decref(u)
+
+
+def fork_and_discard(b, names, rnd):
+    """copy.copy(manager) is one of the operations a manager may have gone through: work in the copy
+    (new nodes, computed-table entries, a collection) must not be visible in the original."""
+    import copy
+    n = len(names)
+    c = copy.copy(b)
+    tmp = []
+    for _ in range(4):
+        u = build(c, rnd.getrandbits(1 << n), names)
+        c.incref(u)
+        tmp.append(u)
+    for _ in range(4):
+        c.ite(rnd.choice(tmp), rnd.choice(tmp), rnd.choice(tmp))
+    for u in tmp[:2]:
+        c.decref(u)
+    c.collect_garbage()
+    # discard the copy without tripping its shutdown assertion
+    c._ref = {k: 0 for k in c._ref}
+    c._ref[1] = 1
